@@ -42,6 +42,14 @@ CHECKS = {
          "deterministic simulation of goroutine interleavings: a seeded token scheduler owns every lock operation and sync/atomic statement of package index (source rewrite), random and PCT schedules; oracles: porcupine set-linearizability per id, Len bounds, search-liveness window, quiescent invariants, deadlock detector; second leg under the Go race detector with raw-pipe hand-off",
          "Seeded search over schedules at synchronisation-point granularity for 2..5 workers (profiles: one writer + readers, many inserters, many writers). Per-id outcomes must be linearizable as a set (porcupine), Len within linearizable bounds, every concurrently returned search item live in the search window with the right score, quiescent state satisfies the sequential invariants and the C01 oracle; no panic, deadlock or race report.",
          "Interleavings between two synchronisation points are not explored (only the race-detector leg sees plain accesses there); checkptr is disabled in the race build because the SIMD wrappers pass a length as a fake pointer (C15's subject)."),
+ "C03": ("fault_enumeration", "DESIGN.md §3 C03, §2.5 World III",
+         "deterministic simulation of a cluster of real servers in one synctest bubble; the crash instant is enumerated over every durable-write boundary (before/after each non-empty Save, local snapshot, log reset) of every node for each generated workload; recovered replica contents checked against the acknowledged history with a nondeterministic per-id register model (porcupine); sampled variants add crashes at quiescence, of all nodes, and message faults",
+         "For each seeded workload the fault-free run counts the durable-write boundaries per node, then the workload is re-executed once per (node, boundary, side) with a crash there, restart of everything and convergence; acknowledged writes must be present, in-flight writes may or may not be, nothing unsubmitted may appear, all replicas agree.",
+         "Badger's transactional durability trusted (no torn WriteBatch); unacknowledged writes are indeterminate; enumeration is complete per workload over boundaries, not over workloads."),
+ "C05": ("exploration", "DESIGN.md §3 C05, §2.5 World III",
+         "deterministic simulation with fault injection on a cluster of 1..5 real servers (real etcd raft, Badger log store, transport glue): seeded message loss / duplication / late delivery / partitions / crash-restart; safety monitors after every step (state-machine safety, apply order, persist-before-reveal against the durable log store, durable monotonicity across restarts, election safety, no death) and bounded-liveness convergence after faults stop",
+         "Seeded search over fault schedules; monitors compare every outgoing vote grant / append acknowledgement with what the sender's log store holds durably at that instant, every applied (group,index) digest across replicas and incarnations, durable term/commit/committed entries across restarts; after faults stop all replicas must converge within 120 simulated seconds and accept writes.",
+         "Scheduling owned at hook/RPC/yield granularity; Badger durability trusted; durable state read through the product's own log-store reader (validated by C06)."),
 }
 
 NOT_APPLICABLE = {
